@@ -1354,7 +1354,7 @@ def cases_bfs(tier: str) -> list[dict]:
     inits = dict(H_INITS)
     if tier == "thorough":
         inits.update(H_INITS_THOROUGH)
-    return [{"id": name, "init": init, "depth": 3} for name, init in inits.items()]
+    return [{"id": name, "init": init, "depth": 4 if tier == "thorough" else 3} for name, init in inits.items()]
 
 
 # ------------------------------------------------------------------------------ driver
@@ -1404,13 +1404,13 @@ def run(ctx) -> None:
                 det = x.get("detail") or {}
                 if isinstance(det, dict) and "states" in det:
                     ctx.add_bfs(det["states"], det["transitions"], det["transitions"])
-            ctx.note("bfs_depth", 3)
+            ctx.note("bfs_depth", 4 if ctx.tier == "thorough" else 3)
             ctx.note("bfs_per_initial_state", {x["id"]: x.get("detail") for x in res if isinstance(x.get("detail"), dict)})
     if not ctx.only:
         # finite spaces enumerated completely: complete bases per (M,N,direction,endpoints) of the stated size lattice,
         # all outer products in the multi-axis lattices, all op sequences of length <= 3 from the listed initial states
         ctx.exhaustive = True
-        ctx.note("exhaustive_scope", "complete bases of the listed grid sizes and all operation sequences up to depth 3; not all M, N")
+        ctx.note("exhaustive_scope", f"complete bases of the listed grid sizes and all operation sequences up to depth {4 if ctx.tier == 'thorough' else 3}; not all M, N")
     ctx.note("sizes_1d", [list(s) for s in sizes(ctx.tier)])
 
 
